@@ -15,28 +15,39 @@ THEOREMS = [
     "BeyondVerif.C12.line_number_checked",
     "BeyondVerif.C12.digit_corruption_rejected",
     "BeyondVerif.C12.epoch_roundtrip",
-    "BeyondVerif.C12.from_string_yields_valid_entries_partial",
+    "BeyondVerif.C12.too_few_lines_rejected",
+    "BeyondVerif.C12.unfloat_float_id",
+    "BeyondVerif.C12.unfloat_float_zero",
+    "BeyondVerif.C12.float_unfloat_id",
+    "BeyondVerif.C12.written_lines_valid",
+    "BeyondVerif.C12.parse_write_id",
+    "BeyondVerif.C12.write_parse_id",
+    "BeyondVerif.C12.from_string_yields_valid_entries",
+    "BeyondVerif.C12.from_string_framed_exact",
     "BeyondVerif.C12.reference_tles_roundtrip",
-    "BeyondVerif.C12W.leading_blank_accepted_misparsed",
-    "BeyondVerif.C12W.from_string_loses_valid_entry",
-    "BeyondVerif.C12W.ecc_rounds_to_zero",
+    "BeyondVerif.C12W.leading_blank_now_harmless",
+    "BeyondVerif.C12W.from_string_keeps_valid_entry",
+    "BeyondVerif.C12W.ecc_one_refused",
+    "BeyondVerif.C12W.missing_line_is_parse_error",
 ]
 LEVEL_TEXT = ("Lean theorems over a List Char / Int model of beyond/io/tle.py whose column slices and writer layout are regenerated from the Python AST on every "
-              "run (the hand-modelled functions are compared statement by statement with the source the model was written from): for EVERY line the "
-              "modulo-10 checksum changes under every single-digit substitution below column 69; _check_validity accepts exactly the texts with two "
-              "correctly numbered first lines whose every line is 69 characters with a matching 69th character (valid_iff), hence wrong length, wrong "
-              "line number and every single-digit corruption of a 69-character line (line number and check digit included) are rejected; the epoch "
-              "field is read as exactly 864 us per 1e-8 day and written back unchanged for every day of every year; from_string yields exactly the "
-              "accepted entries of every text whose element lines kept their '1 '/'2 ' prefixes. Exact differential correspondence of the model with "
-              "Tle, Tle.from_orbit, Tle.from_string, _float, _unfloat (2e4 quick / 2e5 thorough cases, all corruption kinds).")
-LEVEL_NOTE = ("proof (partial): the round-trip clauses parse_write_id / write_parse_id / written_lines_valid / unfloat_float_id for ALL field combinations are "
-              "NOT proved in Lean (open obligations): they are kernel-evaluated on the three reference TLEs and otherwise rest on the exact correspondence and "
-              "the oracle sweep; four clauses are false of the current code (open findings with kernel-checked counter-witnesses); decimal<->double conversion "
-              "is replaced by exact decimal arithmetic in the model; Lean kernel + propext/Classical.choice/Quot.sound")
+              "run (the hand-modelled functions are compared statement by statement with the source the model was written from). For EVERY record inside the "
+              "ranges of the format (5-digit catalogue number, empty/full designator, signed/zero drag and ndot terms with any one-digit exponent, e in [0,1), "
+              "angles in [0,360), n < 100, element numbers 0-9999, revolution numbers 0-99999, every day of 1957-2056, with or without name line): the written "
+              "lines have 69 characters, correct checksums and pass _check_validity (written_lines_valid); from_orbit succeeds, shows exactly those lines and "
+              "reads back to the same record field for field (parse_write_id); parse -> orbit -> write reproduces the identical text, name included "
+              "(write_parse_id); _float/_unfloat are inverse on every (sign, 5-digit mantissa, exponent) triple; the epoch is read as exactly 864 us per 1e-8 day. "
+              "For EVERY line the modulo-10 checksum changes under every single-digit substitution; _check_validity accepts exactly the texts with >= 2 lines, "
+              "correct line numbers and 69-character lines with matching check digit (valid_iff), so wrong length, line number, line count and every single-digit "
+              "corruption are rejected; from_string yields exactly the accepted entries of every text whose entries are intact or corrupted in digits, length or "
+              "one line number. Exact differential correspondence of the model with Tle, Tle.from_orbit, Tle.from_string, _float, _unfloat.")
+LEVEL_NOTE = ("the model replaces decimal<->double conversion and the float prelude of from_orbit by exact decimal arithmetic (assumption, checked by the exact "
+              "correspondence on every generated case and by the oracle on off-grid floats); the hand-written model is tied to the code by AST comparison + correspondence; "
+              "Lean kernel + propext/Classical.choice/Quot.sound")
 TECHNIQUE = "Lean 4 proofs over a List Char / Int model of tle.py whose column table and writer layout are regenerated from the Python AST; exact model/implementation correspondence"
 TRUSTED = [
     "harness/props/C12.py extract: reads the column slices of Tle.__init__, the two str.format layouts and keyword expressions of Tle.from_orbit from the AST -> Generated/TleColumns.lean; "
-    "refuses to run (check reports the model as no longer tied) when _float, _unfloat, _checksum, _check_validity or from_string differ statement-wise from the modelled source",
+    "refuses to run (check reports the model as no longer tied) when _float, _unfloat, _checksum, _check_validity, from_string or the strip / eccentricity statements differ statement-wise from the modelled source",
     "lean/BeyondVerif/Model/Tle.lean (hand-written: int()/float() sub-grammar, _float, _unfloat, Tle.__init__, orbit()+from_orbit numeric prelude as exact decimal rounding, from_string), tied by the correspondence run",
     "correspondence harness: exact comparison of strings, integers, error kinds and line numbers; parsed floats compared with the model's exact decimals to 1e-13 relative; epoch to the microsecond",
 ]
@@ -45,26 +56,24 @@ ASSUMPTIONS = [
     "CPython float<->decimal conversion is correctly rounded and the float operations of orbit()/from_orbit (x*2/2, x*6/6, deg2rad/degrees, n*86400/2pi round trip, the day-of-year sum) do not move a printed-grid value across a rounding boundary: "
     "the model rounds the exact decimal half-even; exact decimal ties (only possible for non-canonical 6+ digit drag mantissas) are excluded from the comparison",
     "Date(datetime) -> change_scale('UTC').datetime is the identity on UTC microseconds (checked to the microsecond by the correspondence on every parsed case)",
-    "canonical TLE = what the writer can produce: classification U, ephemeris type 0, drag terms with 5-digit normalised mantissa and one-digit exponent (zero as 00000-0), name line without '0 ' prefix or surrounding blanks",
+    "canonical TLE = what the writer produces from a record in range (InRange in Lemmas/TleWrite.lean): classification U, ephemeris type 0, drag terms with 5-digit normalised mantissa and one-digit exponent (zero as 00000-0), "
+    "designator = 2 digits + piece without surrounding blanks, name line without '0 ' prefix or surrounding blanks",
 ]
 NOT_COVERED = [
-    "classification other than U, ephemeris type other than 0, non-normalised or two-digit-exponent drag terms (e.g. ' 04982-9' is rewritten '49820-10'; negative ones overflow the column and are refused): outside the quantifier, model and code agree on them",
-    "the writer emits 360.0000 for an angle within 5e-5 deg below 360 and day (N+1).00000000 for the last 432 us of a year: same elements / same instant, but a second generation prints 0.0000 / day 1 of the next year (counted by the oracle, not failed)",
-    "a line that is neither '1 ' nor '2 ' (e.g. a second line whose number was corrupted to 3) is by design taken as the name line of the following two-line-format entry: the entry is yielded with that name",
-    "four clauses are false of the current code: open findings C12-leading-blank-misparsed, C12-from-string-stale-line1, C12-eccentricity-rounds-to-one, C12-missing-line-indexerror",
+    "classification other than U, ephemeris type other than 0, non-normalised drag terms (written back normalised, or with exponent -9 below 1e-10): outside the quantifier; model and code agree on them (correspondence)",
+    "off-grid float orbits (values between printed units): the theorems speak about records of printed units; rounding of floats to the grid is the float assumption above, exercised by the oracle (1000/10000 random orbits per run)",
+    "the writer emits 360.0000 for an angle within 5e-5 deg below 360, day (N+1).00000000 for the last 432 us of a year and 00000-9 for |x| < 0.5e-14: same elements / same instant to the printed precision, "
+    "but a second generation prints 0.0000 / day 1 of the next year / 00000-0 (counted by the oracle, not failed)",
+    "a line that is neither '1 ' nor '2 ' (e.g. a second line whose number was corrupted to 3) is by design taken as the name line of the following two-line-format entry: the entry is yielded with that name "
+    "(from_string_yields_valid_entries is stated name aside; from_string_framed_exact includes names when every entry kept its line numbers)",
 ]
-OPEN = [
-    "written_lines_valid (for ALL records in range: 69 characters, valid checksums) — not proved; exact correspondence on 400/6000 in-range and 200/3000 out-of-range records, oracle on 1000/10000 float orbits",
-    "parse_write_id / write_parse_id (for ALL in-range records: parseTle (writeRec r) gives back r, hence write . parse is the identity on canonical lines) — not proved; kernel-evaluated on the three reference TLEs (reference_tles_roundtrip); "
-    "exact correspondence of parse, of write and of parse->write with the code on every generated TLE",
-    "unfloat_float_id / float_unfloat_id on (sign, mantissa, exponent) triples — not proved; exact correspondence of _float / _unfloat on 1500/30000 strings",
-    "from_string for texts in which an element line lost its '1 '/'2 ' prefix: false of the code for 2 -> 1 (finding), otherwise only enumerated by the oracle (directed scenarios for every replacement digit, named/unnamed neighbours)",
-]
+OPEN = []
 RULE = ("correspondence: records with every field drawn from its full range with edge values (0, max, 10^k boundaries, year pivot 56/57, leap days), written by an "
         "independent column-table writer; for each: parse, parse->write, write (in and out of range), all single-digit substitutions (exhaustive on 3/50 TLEs, 30 per line "
-        "otherwise), deletions/insertions/truncations/leading and trailing blanks, every line-number replacement, 1/4-line texts, non-canonical accepted fields; _float/_unfloat "
+        "otherwise), deletions/insertions/truncations/leading and trailing blanks, every line-number replacement, 0/1/4-line texts, non-canonical accepted fields; _float/_unfloat "
         "strings; multi-entry texts with corrupted entries. non-trivial = every case (key = the text); oracle: the property's clauses on Tle, Tle.from_orbit, Tle.from_string, "
-        "_float, _unfloat with tolerances of half a printed unit (epoch 1e-8 day)")
+        "_float, _unfloat with tolerances of half a printed unit (epoch 1e-8 day); every formerly failing family (leading blank, stale line 1, e -> 1.0000000, missing line, "
+        "drag below 1e-10) is exercised by directed cases on every run")
 
 TLE_PY = os.path.join(core.REPO, "beyond", "io", "tle.py")
 
@@ -386,9 +395,10 @@ def write_checks(out, orb, what, inp, name=None):
         bad.append(("n", n * rd, tle.n * rd))
     if abs(orb.ndot - tle.ndot) > 2 * half(1e-8):
         bad.append(("ndot", orb.ndot, tle.ndot))
-    for nm in ("ndotdot", "bstar"):
+    for nm, mul in (("ndotdot", 6), ("bstar", 1)):
         a, b = getattr(orb, nm), getattr(tle, nm)
-        if abs(a - b) > 0.5e-4 * abs(a) * (1 + 1e-6) + 1e-300:
+        # five significant digits, or the last column of the non-normalised notation below 1e-10 (0.00001e-9)
+        if abs(a - b) > max(0.5e-4 * abs(a), 0.5e-14 * mul) * (1 + 1e-6) + 1e-300:
             bad.append((nm, a, b))
     if (tle.norad_id, tle.element_nb, tle.revolutions) != (int(orb.norad_id), orb.element_nb, orb.revolutions):
         bad.append(("ids", (tle.norad_id, tle.element_nb, tle.revolutions), (orb.norad_id, orb.element_nb, orb.revolutions)))
@@ -427,7 +437,8 @@ def gen_float_orbit(rng):
         if k < 0.15:
             return 0.0
         if k < 0.25:
-            return rng.choice([1.0, -1.0, 0.999996, 9.99996e-5, 0.1, 1e-9, -1e-9, 0.999994e-3, 12345.0, 99999e4, -0.99999e9])
+            return rng.choice([1.0, -1.0, 0.999996, 9.99996e-5, 0.1, 1e-9, -1e-9, 0.999994e-3, 12345.0, 99999e4, -0.99999e9,
+                               4.982e-11, -4.411e-11, 9.99996e-11, -9.99996e-11, 1.2345e-12, -6e-14, 4e-15, -4e-15, 9.9999e-11])
         return rng.choice([-1, 1]) * rng.uniform(0.1, 1) * 10.0 ** rng.randint(-9, 8)
     y = rng.randint(1957, 2056)
     span = (datetime(y + 1, 1, 1) - datetime(y, 1, 1)).days * 86400 * 10**6
@@ -455,11 +466,21 @@ def o_write(out, rng):
     out.count(key=repr(inp["vals"]), kind="write-float", writable=tle is not None)
     if tle is None:
         out.tally("unwritable=" + err[:24])
+        e = inp["vals"][2]
+        if not e >= 0.99999995:
+            # every other generated value fits its columns (drag terms below 1e-10 in the non-normalised notation)
+            small = [x for x in (inp["data"]["bstar"], inp["data"]["ndotdot"] / 6) if 0 < abs(x) < 1e-10]
+            out.fail("write-small-drag-unwritable" if small else "write-in-range-unwritable", "an orbit inside the ranges of the format cannot be written", inp,
+                     observed=err, expected="a TLE")
         return
     # second generation: text -> orbit -> text must be a fixed point unless an angle was rounded up to 360.0000
     l1, l2 = tle.text.split("\n")
     if "360.0000" in l2:
         out.tally("written-angle-360.0000")
+        return
+    if "00000-9" in l1:
+        # |x| < 0.5e-14 is written as a zero mantissa with exponent -9; the second generation writes the canonical zero 00000-0
+        out.tally("written-zero-mantissa-exponent-9")
         return
     yy, day = int(l1[18:20]), l1[20:32]
     if day in ("366.00000000", "367.00000000") and int(day[:3]) == (367 if is_leap(full_year(yy)) else 366):
@@ -818,6 +839,9 @@ def _unfloat(flt, precision=5):
 
     num, _, exp = f"{flt:.{precision - 1}e}".partition("e")
     exp = int(exp)
+    if exp + 1 < -9:
+        digits = round(abs(flt) * 10 ** (9 + precision))
+        return f"{'-' if flt < 0 else ''}{digits:0{precision}d}-9"
     num = num.replace(".", "")
 
     return f"{num}{exp+1:+d}"
@@ -826,6 +850,9 @@ def _unfloat(flt, precision=5):
 class Tle:
     @classmethod
     def _check_validity(cls, text):
+        if len(text) < 2:
+            raise TleParseError(f"Invalid TLE: expected 2 lines, got {len(text)}.")
+
         if not text[0].lstrip().startswith("1 ") or not text[1].lstrip().startswith(
             "2 "
         ):
@@ -860,6 +887,7 @@ class Tle:
             if not line.strip() or line.startswith(comments):
                 continue
             if line.startswith("1 "):
+                cache = [x for x in cache[-1:] if not x.startswith("1 ")]
                 cache.append(line)
             elif line.startswith("2 "):
                 cache.append(line)
@@ -900,6 +928,22 @@ def check_modelled_shape(tree):
     for nm in ("_check_validity", "_checksum", "from_string"):
         if _strip_doc(_find(tree, "Tle", nm)) != _strip_doc(_find(ref, "Tle", nm)):
             raise RuntimeError(f"Tle.{nm} differs from the source the model Model/Tle.lean was written from")
+
+
+def check_statements(tree):
+    """single statements of Tle.__init__ / Tle.from_orbit that the model mirrors"""
+    init = _find(tree, "Tle", "__init__")
+    dumps = [ast.dump(x) for x in init.body]
+    want = [ast.dump(x) for x in ast.parse("self._check_validity(text)\ntext = [line.strip() for line in text]\nself.text = '\\n'.join(text)\nfirst, second = text[0], text[1]").body]
+    k = dumps.index(want[0]) if want[0] in dumps else -1
+    if k < 0 or dumps[k:k + 4] != want:
+        raise RuntimeError("Tle.__init__ no longer validates, strips the lines, stores them and reads first/second from them, in that order")
+    fo = _find(tree, "Tle", "from_orbit")
+    want = ast.dump(ast.parse("if not '{:.7f}'.format(e).startswith('0.'):\n    raise TleParseError(f'Eccentricity {e} can not be written in a TLE')").body[0])
+    pos = [i for i, x in enumerate(fo.body) if ast.dump(x) == want]
+    first_fmt = [i for i, x in enumerate(fo.body) if isinstance(x, ast.Assign) and isinstance(x.targets[0], ast.Name) and x.targets[0].id == "line1"]
+    if len(pos) != 1 or not first_fmt or pos[0] > first_fmt[0]:
+        raise RuntimeError("Tle.from_orbit no longer refuses an eccentricity that prints as 1.0000000 before formatting the lines")
 
 
 def read_checksum(tree):
@@ -991,6 +1035,7 @@ def read_writer(tree):
 def extract(ctx):
     tree = ast.parse(open(TLE_PY).read())
     check_modelled_shape(tree)
+    check_statements(tree)
     cols = read_columns(tree)
     ck = read_checksum(tree)
     f1, f2 = read_writer(tree)
@@ -1052,6 +1097,11 @@ def real_error_token(e):
         g = re.match(r"TLE checksum validation failed on line (\d+)\.", m)
         if g:
             return f"err parse-error checksum {g.group(1)}"
+        g = re.fullmatch(r"Invalid TLE: expected 2 lines, got (\d+)\.", m)
+        if g:
+            return f"err parse-error line-count {g.group(1)}"
+        if re.fullmatch(r"Eccentricity \S+ can not be written in a TLE", m):
+            return "err parse-error eccentricity"
         return "err parse-error ?" + m
     if isinstance(e, ValueError):
         return "err value-error"
@@ -1122,6 +1172,9 @@ def real_parse_token(lines):
 
 def rec_line(r):
     def u(x):
+        if x[1] != 0 and x[2] < -9:
+            # what _unfloat sees below 1e-10: the value in units of 1e-14, rounded half even
+            return f"s {1 if x[0] else 0} {round(Fraction(x[1], 10**5) * Fraction(10) ** (x[2] + 14))}"
         return "z" if x[1] == 0 else f"{1 if x[0] else 0} {x[1]} {x[2]}"
     c = r["cospar"]
     return " ".join(["tle.write", hx(r["name"]), str(r["norad"]), hx(c), str(r["yy"]), str(r["day8"]), "1" if r["ndot"][0] else "0", str(r["ndot"][1]),
@@ -1145,7 +1198,11 @@ def widen_rec(rng, r):
     elif k == "ndot":
         r["ndot"] = (r["ndot"][0], rng.choice([10**8, 10**9 + 5 * 10**7, 3 * 10**8 + 1]))
     elif k == "exp":
-        r["bstar"] = (rng.random() < 0.5, rng.randint(10000, 99999), rng.choice([10, -10, 12, -15]))
+        m5, ex = rng.randint(10000, 99999), rng.choice([10, -10, 12, -15])
+        # below 1e-10 the code rounds the binary neighbour of value * 1e14, the model the decimal itself: avoid exact ties
+        while ex < -9 and (Fraction(m5, 10**5) * Fraction(10) ** (ex + 14) * 2).denominator == 1 and (Fraction(m5, 10**5) * Fraction(10) ** (ex + 14)).denominator == 2:
+            m5 = m5 + 1 if m5 < 99999 else 10000
+        r["bstar"] = (rng.random() < 0.5, m5, ex)
     elif k == "cospar":
         r["cospar"] = (r["cospar"][:6] or "98067A") + "ABCD"[: rng.choice([3, 4])]
     elif k == "lower":
